@@ -24,7 +24,9 @@ func C07(c *core.Ctx) {
 		"reachable except in the two recover wrappers; (P4) no unchecked type assertion and no division by a non-constant; (P5) the event loop " +
 		"returns only on the receiver-closed sentinel, every other arm continues, and the sentinel (empty buffer) cannot be produced by a datagram " +
 		"(data sends carry a fresh buffer of length n with n != 0 known); (P6) the heartbeat handler reaches its response on every path with no " +
-		"state lookup in between; (P7) messages end exactly the sessions they address (re-association resets only the found node; rules shared with C05 R3)."
+		"state lookup in between; (P8) every attribute list handed to go-gtp5gnl that can contain a nested attribute of datagram-decided size " +
+		"(one attribute per received IE, or a payload-proportional byte string) first passes a length check that rejects anything the 16-bit netlink " +
+		"attribute length cannot hold — go-nl wraps the length and panics in Attr.Encode otherwise; (P7) messages end exactly the sessions they address (re-association resets only the found node; rules shared with C05 R3)."
 	c.Undec = []string{"panics inside dependencies (go-pfcp IE/message parsing, go-gtp5gnl, go-nl, logrus): library code is not analysed — the properties file itself reports two such crashes",
 		"resource exhaustion (memory, sockets)", "kernel-originated netlink input (buffnetlink decoders run on the mux goroutine, outside the datagram path)"}
 	c.Assume = []string{"Go compiler prove pass is sound", "net.UDPConn.ReadFrom returns 0 <= n", "call graph over-approximates", "library functions do not panic on the values go-upf hands them"}
@@ -66,6 +68,7 @@ func C07(c *core.Ctx) {
 	c07AssertDiv(c, fns)
 	c07Loop(c)
 	c07Heartbeat(c)
+	c07AttrLen(c, fns)
 	// P7: sessions not addressed by a message stay intact — re-association resets exactly the found node, session
 	// deletion and the SEID-0 response delete exactly the addressed session (shared with C01 R6 / C05 R3)
 	c01EndPaths(c, "P7", false)
